@@ -246,6 +246,7 @@ package multiplex
 //@     return sesh != nil && sesh.sb != nil && cipherOK(&sesh.Obfuscator) && sesh.Valve != nil && sesh.maxStreamUnitWrite == sesh.MsgOnWireSizeLimit - 14 - 255 && sesh.streamSendBufferSize == sesh.MsgOnWireSizeLimit && sesh.maxStreamUnitWrite > 0 && sesh.sb.session == sesh
 //@ }
 //@ ghost func closable(sesh *Session) bool { return seshOK(sesh) && sesh.sb.valve != nil }
+//@ ghost func streamOK(s *Stream) bool { return s != nil && s.recvBuf != nil && closable(s.session) }
 // a configuration from which MakeSession builds a session every operation accepts (closable): an AEAD of
 // the two supported shapes or none, and an on-wire limit that leaves room for at least one payload byte
 //@ ghost func cfgOK(c SessionConfig) bool { return (c.payloadCipher == nil || (uf("aead_overhead", uf("aead_sem", c.payloadCipher)) == 16 && uf("aead_noncesize", uf("aead_sem", c.payloadCipher)) == 12)) && (c.MsgOnWireSizeLimit <= 0 || c.MsgOnWireSizeLimit > 269) }
@@ -271,7 +272,7 @@ package multiplex
 //@   atcall Write requires pacedFirst: calls("(Valve).txWait") == 1
 //@   atcall AddTx requires chargesWhatWasSent: int(arg0.(int64)) == n
 //@   modifies *
-//@   preserves Frame.StreamID, Frame.Seq, Frame.Closing, Frame.Payload, Stream.id, Stream.session, Session.sb, SessionConfig.MsgOnWireSizeLimit, Session.maxStreamUnitWrite, Session.streamSendBufferSize, SessionConfig.Unordered, SessionConfig.Valve, SessionConfig.Singleplex, Obfuscator.payloadCipher, switchboard.session, switchboard.valve, heap(B_Slice)
+//@   preserves Frame.StreamID, Frame.Seq, Frame.Closing, Frame.Payload, Stream.id, Stream.session, Stream.recvBuf, Session.sb, SessionConfig.MsgOnWireSizeLimit, Session.maxStreamUnitWrite, Session.streamSendBufferSize, SessionConfig.Unordered, SessionConfig.Valve, SessionConfig.Singleplex, Obfuscator.payloadCipher, switchboard.session, switchboard.valve, heap(B_Slice)
 
 //@ func (*Session).SetTerminalMsg
 //@   flag trusted
@@ -284,7 +285,7 @@ package multiplex
 //@   ensures connectionsClosed: ret0 == nil ==> called("(*switchboard).closeAll")
 //@   ensures locks: holdsAsAtEntry()
 //@   modifies *
-//@   preserves Frame.StreamID, Frame.Seq, Frame.Closing, Frame.Payload, Stream.id, Stream.session, Session.sb, SessionConfig.MsgOnWireSizeLimit, Session.maxStreamUnitWrite, Session.streamSendBufferSize, SessionConfig.Unordered, SessionConfig.Valve, SessionConfig.Singleplex, Obfuscator.payloadCipher, switchboard.session, switchboard.valve, heap(B_Slice)
+//@   preserves Frame.StreamID, Frame.Seq, Frame.Closing, Frame.Payload, Stream.id, Stream.session, Stream.recvBuf, Session.sb, SessionConfig.MsgOnWireSizeLimit, Session.maxStreamUnitWrite, Session.streamSendBufferSize, SessionConfig.Unordered, SessionConfig.Valve, SessionConfig.Singleplex, Obfuscator.payloadCipher, switchboard.session, switchboard.valve, heap(B_Slice)
 
 // Seq is incremented exactly once per encode, on every path (a number may be skipped, never reused).
 //@ func (*Stream).obfuscateAndSend
@@ -298,7 +299,7 @@ package multiplex
 //@   ensures frameKept: s.writingFrame.StreamID == old(s.writingFrame.StreamID) && s.writingFrame.Closing == old(s.writingFrame.Closing) && sameSlice(s.writingFrame.Payload, old(s.writingFrame.Payload))
 //@   ensures bigEnoughSucceedsEncoding: len(old(s.writingFrame.Payload)) == 0 ==> ret0 != nil
 //@   modifies *
-//@   preserves Frame.StreamID, Frame.Closing, Frame.Payload, Stream.id, Stream.session, Session.sb, SessionConfig.MsgOnWireSizeLimit, Session.maxStreamUnitWrite, Session.streamSendBufferSize, SessionConfig.Unordered, SessionConfig.Valve, SessionConfig.Singleplex, Obfuscator.payloadCipher, switchboard.session, switchboard.valve, heap(B_Slice)
+//@   preserves Frame.StreamID, Frame.Closing, Frame.Payload, Stream.id, Stream.session, Stream.recvBuf, Session.sb, SessionConfig.MsgOnWireSizeLimit, Session.maxStreamUnitWrite, Session.streamSendBufferSize, SessionConfig.Unordered, SessionConfig.Valve, SessionConfig.Singleplex, Obfuscator.payloadCipher, switchboard.session, switchboard.valve, heap(B_Slice)
 
 
 //@ func (*Stream).isClosed
@@ -315,7 +316,7 @@ package multiplex
 //@   ensures allAccepted: err == nil ==> n == len(in)
 //@   ensures idKept: s.writingFrame.StreamID == old(s.writingFrame.StreamID) && s.writingFrame.Closing == old(s.writingFrame.Closing)
 //@   modifies *
-//@   preserves Frame.StreamID, Frame.Closing, Stream.id, Stream.session, Session.sb, SessionConfig.MsgOnWireSizeLimit, Session.maxStreamUnitWrite, Session.streamSendBufferSize, SessionConfig.Unordered, SessionConfig.Valve, SessionConfig.Singleplex, Obfuscator.payloadCipher, switchboard.session, switchboard.valve
+//@   preserves Frame.StreamID, Frame.Closing, Stream.id, Stream.session, Stream.recvBuf, Session.sb, SessionConfig.MsgOnWireSizeLimit, Session.maxStreamUnitWrite, Session.streamSendBufferSize, SessionConfig.Unordered, SessionConfig.Valve, SessionConfig.Singleplex, Obfuscator.payloadCipher, switchboard.session, switchboard.valve
 //@   loop 0 invariant sesh: s.session != nil && seshOK(s.session) && s.session.sb.session != nil && s.session.sb.valve != nil
 //@   loop 0 invariant range: 0 <= n && n <= len(in)
 //@   loop 0 invariant lock: held(s.writingM)
@@ -327,16 +328,16 @@ package multiplex
 //@ func (recvBuffer).Close
 //@   flag trusted
 //@   modifies *
-//@   preserves Frame.StreamID, Frame.Seq, Frame.Closing, Frame.Payload, Stream.id, Stream.session, Session.sb, SessionConfig.MsgOnWireSizeLimit, Session.maxStreamUnitWrite, Session.streamSendBufferSize, SessionConfig.Unordered, SessionConfig.Valve, SessionConfig.Singleplex, Obfuscator.payloadCipher, switchboard.session, switchboard.valve, heap(B_Slice), Session.streams
+//@   preserves Frame.StreamID, Frame.Seq, Frame.Closing, Frame.Payload, Stream.id, Stream.session, Stream.recvBuf, Session.sb, SessionConfig.MsgOnWireSizeLimit, Session.maxStreamUnitWrite, Session.streamSendBufferSize, SessionConfig.Unordered, SessionConfig.Valve, SessionConfig.Singleplex, Obfuscator.payloadCipher, switchboard.session, switchboard.valve, heap(B_Slice), Session.streams
 //@ func (recvBuffer).Write
 //@   flag trusted
 //@   modifies *
-//@   preserves Frame.StreamID, Frame.Seq, Frame.Closing, Frame.Payload, Stream.id, Stream.session, Session.sb, SessionConfig.MsgOnWireSizeLimit, Session.maxStreamUnitWrite, Session.streamSendBufferSize, SessionConfig.Unordered, SessionConfig.Valve, SessionConfig.Singleplex, Obfuscator.payloadCipher, switchboard.session, switchboard.valve, heap(B_Slice), Session.streams
+//@   preserves Frame.StreamID, Frame.Seq, Frame.Closing, Frame.Payload, Stream.id, Stream.session, Stream.recvBuf, Session.sb, SessionConfig.MsgOnWireSizeLimit, Session.maxStreamUnitWrite, Session.streamSendBufferSize, SessionConfig.Unordered, SessionConfig.Valve, SessionConfig.Singleplex, Obfuscator.payloadCipher, switchboard.session, switchboard.valve, heap(B_Slice), Session.streams
 //@ func (recvBuffer).Read
 //@   flag trusted
 //@   ensures 0 <= n && n <= len(p)
 //@   modifies *
-//@   preserves Frame.StreamID, Frame.Seq, Frame.Closing, Frame.Payload, Stream.id, Stream.session, Session.sb, SessionConfig.MsgOnWireSizeLimit, Session.maxStreamUnitWrite, Session.streamSendBufferSize, SessionConfig.Unordered, SessionConfig.Valve, SessionConfig.Singleplex, Obfuscator.payloadCipher, switchboard.session, switchboard.valve, heap(B_Slice), Session.streams
+//@   preserves Frame.StreamID, Frame.Seq, Frame.Closing, Frame.Payload, Stream.id, Stream.session, Stream.recvBuf, Session.sb, SessionConfig.MsgOnWireSizeLimit, Session.maxStreamUnitWrite, Session.streamSendBufferSize, SessionConfig.Unordered, SessionConfig.Valve, SessionConfig.Singleplex, Obfuscator.payloadCipher, switchboard.session, switchboard.valve, heap(B_Slice), Session.streams
 
 //@ func (*Session).Close
 //@   requires closable(sesh) && !held(sesh.streamsM) && locksBelow(sesh.streamsM)
@@ -347,7 +348,7 @@ package multiplex
 //@   ensures connectionsClosed: ret0 == nil ==> called("(*switchboard).closeAll")
 //@   ensures locks: holdsAsAtEntry()
 //@   modifies *
-//@   preserves Frame.StreamID, Frame.Seq, Frame.Closing, Frame.Payload, Stream.id, Stream.session, Session.sb, SessionConfig.MsgOnWireSizeLimit, Session.maxStreamUnitWrite, Session.streamSendBufferSize, SessionConfig.Unordered, SessionConfig.Valve, SessionConfig.Singleplex, Obfuscator.payloadCipher, switchboard.session, switchboard.valve, heap(B_Slice), heap(F_server.ActiveUser.panel), heap(F_server.ActiveUser.sessions), heap(F_server.ActiveUser.valve), heap(F_server.ActiveUser.bypass), heap(F_server.userPanel.Manager), heap(F_server.userPanel.activeUsers), heap(F_server.userPanel.usageUpdateQueue), heap(MD_Int_Pmultiplex.Session), heap(MV_Int_Pmultiplex.Session), heap(MC)
+//@   preserves Frame.StreamID, Frame.Seq, Frame.Closing, Frame.Payload, Stream.id, Stream.session, Stream.recvBuf, Session.sb, SessionConfig.MsgOnWireSizeLimit, Session.maxStreamUnitWrite, Session.streamSendBufferSize, SessionConfig.Unordered, SessionConfig.Valve, SessionConfig.Singleplex, Obfuscator.payloadCipher, switchboard.session, switchboard.valve, heap(B_Slice), heap(F_server.ActiveUser.panel), heap(F_server.ActiveUser.sessions), heap(F_server.ActiveUser.valve), heap(F_server.ActiveUser.bypass), heap(F_server.userPanel.Manager), heap(F_server.userPanel.activeUsers), heap(F_server.userPanel.usageUpdateQueue), heap(MD_Int_Pmultiplex.Session), heap(MV_Int_Pmultiplex.Session), heap(MC)
 
 //@ func (*Session).streamCountDecr
 //@   flag inline
@@ -375,21 +376,21 @@ package multiplex
 //@   ensures countedOnce: calls("(*Session).streamCountDecr") <= 1 && (ret0 == nil ==> calls("(*Session).streamCountDecr") == 1)
 //@   ensures repeatedCloseCountsNothing: old(s.closed) != 0 ==> ret0 != nil && calls("(*Session).streamCountDecr") == 0
 //@   modifies *
-//@   preserves Frame.StreamID, Stream.id, Stream.session, Session.sb, SessionConfig.MsgOnWireSizeLimit, Session.maxStreamUnitWrite, Session.streamSendBufferSize, SessionConfig.Unordered, SessionConfig.Valve, SessionConfig.Singleplex, Obfuscator.payloadCipher, switchboard.session, switchboard.valve, heap(B_Slice)
+//@   preserves Frame.StreamID, Stream.id, Stream.session, Stream.recvBuf, Session.sb, SessionConfig.MsgOnWireSizeLimit, Session.maxStreamUnitWrite, Session.streamSendBufferSize, SessionConfig.Unordered, SessionConfig.Valve, SessionConfig.Singleplex, Obfuscator.payloadCipher, switchboard.session, switchboard.valve, heap(B_Slice)
 
 //@ func (*Stream).Close
 //@   requires s.session != nil && seshOK(s.session) && s.session.sb.session != nil && s.session.sb.valve != nil && s.recvBuf != nil
 //@   requires notHeld: holdsNone()
 //@   ensures seqNeverReset: s.writingFrame.Seq == old(s.writingFrame.Seq) || nextSeq(old(s.writingFrame.Seq), s.writingFrame.Seq)
 //@   modifies *
-//@   preserves Frame.StreamID, Stream.id, Stream.session, Session.sb, SessionConfig.MsgOnWireSizeLimit, Session.maxStreamUnitWrite, Session.streamSendBufferSize, SessionConfig.Unordered, SessionConfig.Valve, SessionConfig.Singleplex, Obfuscator.payloadCipher, switchboard.session, switchboard.valve, heap(B_Slice)
+//@   preserves Frame.StreamID, Stream.id, Stream.session, Stream.recvBuf, Session.sb, SessionConfig.MsgOnWireSizeLimit, Session.maxStreamUnitWrite, Session.streamSendBufferSize, SessionConfig.Unordered, SessionConfig.Valve, SessionConfig.Singleplex, Obfuscator.payloadCipher, switchboard.session, switchboard.valve, heap(B_Slice)
 
 //@ func (*Stream).passiveClose
 //@   requires s.session != nil && seshOK(s.session) && s.session.sb.session != nil && s.session.sb.valve != nil && s.recvBuf != nil
 //@   requires order: locksBelow(s.session.streamsM)
 //@   ensures sendsNothing: s.writingFrame.Seq == old(s.writingFrame.Seq)
 //@   modifies *
-//@   preserves Frame.StreamID, Stream.id, Stream.session, Session.sb, SessionConfig.MsgOnWireSizeLimit, Session.maxStreamUnitWrite, Session.streamSendBufferSize, SessionConfig.Unordered, SessionConfig.Valve, SessionConfig.Singleplex, Obfuscator.payloadCipher, switchboard.session, switchboard.valve, heap(B_Slice)
+//@   preserves Frame.StreamID, Stream.id, Stream.session, Stream.recvBuf, Session.sb, SessionConfig.MsgOnWireSizeLimit, Session.maxStreamUnitWrite, Session.streamSendBufferSize, SessionConfig.Unordered, SessionConfig.Valve, SessionConfig.Singleplex, Obfuscator.payloadCipher, switchboard.session, switchboard.valve, heap(B_Slice)
 
 // ReadFrom: the encode+send of every chunk happens under writingM (taken around obfuscateAndSend only)
 //@ func (*Stream).ReadFrom
@@ -400,7 +401,7 @@ package multiplex
 //@   # may have been unblocked by a Close): nothing is written on a stream closed in the meantime
 //@   atcall obfuscateAndSend requires recheckedAfterRead: calls("(*Stream).isClosed") == calls("(io.Reader).Read")
 //@   modifies *
-//@   preserves Frame.StreamID, Stream.id, Stream.session, Session.sb, SessionConfig.MsgOnWireSizeLimit, Session.maxStreamUnitWrite, Session.streamSendBufferSize, SessionConfig.Unordered, SessionConfig.Valve, SessionConfig.Singleplex, Obfuscator.payloadCipher, switchboard.session, switchboard.valve
+//@   preserves Frame.StreamID, Stream.id, Stream.session, Stream.recvBuf, Session.sb, SessionConfig.MsgOnWireSizeLimit, Session.maxStreamUnitWrite, Session.streamSendBufferSize, SessionConfig.Unordered, SessionConfig.Valve, SessionConfig.Singleplex, Obfuscator.payloadCipher, switchboard.session, switchboard.valve
 //@   loop 0 invariant sesh: s.session != nil && seshOK(s.session) && s.session.sb.session != nil && s.session.sb.valve != nil
 //@   loop 0 invariant nolocks: holdsNone()
 //@   loop 0 invariant rechecks: calls("(*Stream).isClosed") == calls("(io.Reader).Read")
@@ -516,7 +517,7 @@ package multiplex
 // ---------------------------------------------------------------------------------------------
 // Receive path (C11 "dropped without effect, later frames still processed"; C12 teardown on read error)
 // ---------------------------------------------------------------------------------------------
-//@ define SKEEP Frame.StreamID, Frame.Seq, Frame.Closing, Frame.Payload, Stream.id, Stream.session, Session.sb, SessionConfig.MsgOnWireSizeLimit, Session.maxStreamUnitWrite, Session.streamSendBufferSize, SessionConfig.Unordered, SessionConfig.Valve, SessionConfig.Singleplex, Obfuscator.payloadCipher, switchboard.session, switchboard.valve, heap(B_Slice)
+//@ define SKEEP Frame.StreamID, Frame.Seq, Frame.Closing, Frame.Payload, Stream.id, Stream.session, Stream.recvBuf, Session.sb, SessionConfig.MsgOnWireSizeLimit, Session.maxStreamUnitWrite, Session.streamSendBufferSize, SessionConfig.Unordered, SessionConfig.Valve, SessionConfig.Singleplex, Obfuscator.payloadCipher, switchboard.session, switchboard.valve, heap(B_Slice)
 //@ func makeStream
 //@   flag trusted
 //@   requires sesh != nil
@@ -630,6 +631,9 @@ package multiplex
 //@   requires sesh != nil && holdsNone()
 //@   ensures countedIffOpened: calls("(*Session).streamCountIncr") <= 1 && ((ret1 == nil) == (calls("(*Session).streamCountIncr") == 1))
 //@   ensures streamOnSuccess: ret1 == nil ==> ret0 != nil
+//@   ensures openedOnThisSession: ret1 == nil ==> ret0.session == sesh && ret0.recvBuf != nil
+//@   ensures usable: ret1 == nil && old(closable(sesh)) ==> streamOK(ret0)
+//@   ensures sessionStaysUsable: old(closable(sesh)) ==> closable(sesh)
 //@   ensures locks: holdsNone()
 //@   flag noframe
 // checkTimeout: the inactivity timer closes the session only if it saw NO open stream.
@@ -644,6 +648,33 @@ package multiplex
 //@   requires s != nil && s.recvBuf != nil
 //@   ensures eofIsBrokenStream: err != io.EOF
 //@   ensures countOnSuccess: err == nil ==> 0 <= n && n <= len(buf)
+//@   modifies *
+//@   preserves $SKEEP
+
+// Read deadlines: the stream hands the deadline to its receive buffer; the pipes store it under their
+// lock and wake every blocked reader so that it re-evaluates its wait against the new deadline.
+//@ func (recvBuffer).SetReadDeadline
+//@   flag trusted
+//@   modifies *
+//@   preserves $SKEEP, Session.streams
+//@ func (*Stream).SetReadDeadline
+//@   requires s != nil && s.recvBuf != nil
+//@   ensures ret0 == nil
+//@   modifies *
+//@   preserves $SKEEP
+//@ func (*streamBufferedPipe).SetReadDeadline
+//@   requires p != nil && p.rwCond != nil && !held(p.rwCond.L) && locksBelow(p.rwCond.L)
+//@   ensures wakes: ghostget("broadcasts", p.rwCond) > old(ghostget("broadcasts", p.rwCond))
+//@   ensures locks: holdsAsAtEntry()
+//@   # (frame assumed, as for Close: state guarded by the pipe lock may have been changed by others before it is taken)
+//@   modifies heap(GB_bufdata), heap(GB_bufwr), heap(GB_bufrd), heap(GU_broadcasts), streamBufferedPipe.closed, streamBufferedPipe.rDeadline, streamBufferedPipe.timeoutTimer
+//@   flag noframe
+//@ func (*datagramBufferedPipe).SetReadDeadline
+//@   requires d != nil && d.rwCond != nil && !held(d.rwCond.L) && locksBelow(d.rwCond.L)
+//@   ensures wakes: ghostget("broadcasts", d.rwCond) > old(ghostget("broadcasts", d.rwCond))
+//@   ensures locks: holdsAsAtEntry()
+//@   # (frame assumed, as for Close)
+//@   modifies heap(GB_bufdata), heap(GB_bufwr), heap(GB_bufrd), heap(GU_broadcasts), heap(E_IntW), datagramBufferedPipe.closed, datagramBufferedPipe.rDeadline, datagramBufferedPipe.timeoutTimer, datagramBufferedPipe.pLens
 //@   flag noframe
 
 // ---------------------------------------------------------------------------------------------
